@@ -138,6 +138,12 @@ func c11Scenarios(tier string) []*h.Scenario {
 			prefix(w)
 			mustStatus(w.PutManifest(repo, "t", mtImg, f.Items["I1"].Data), 201)
 		}},
+		// a tag that always exists and only moves: a reader may see the old or the new manifest, never none
+		{name: "tag-move-vs-reader", threads: [][]h.Step{{putMan(repo, "I2", "t")}, {getTag("t"), getTags}}, prefix: func(w *h.World) {
+			prefix(w)
+			mustStatus(w.PushBlob(repo, f.Items["l2"].Data, f.Items["l2"].Dig), 201)
+			mustStatus(w.PutManifest(repo, "t", mtImg, f.Items["I1"].Data), 201)
+		}},
 		{name: "digest-delete-vs-tag-push", threads: [][]h.Step{{del(f.Items["I1"].Dig)}, {putMan(repo, "I1", "t2")}}},
 		{name: "referrer-push-vs-two-reads", threads: [][]h.Step{{putMan(repo, "A1", f.Items["A1"].Dig)}, {getRef, getRef}}},
 		{name: "blob-upload-vs-manifest-needing-it", threads: [][]h.Step{{pushBlob(repo, "l2")}, {putMan(repo, "I2", "t2")}}},
